@@ -356,22 +356,26 @@ def r_model_state(ctx: Ctx, rt: RT, prop):
             called = []
             I.overrides[ci.find_method("__init_parameters__").qualname] = lambda I, fi, env, n, called=called: called.append(env.get("params"))
 
-            def thunk(I, ci=ci):
-                called.clear()
-                mobj = Obj(cls=ci, label="model", attrs={"params": {}, "name": ci.name})
-                new = Obj(cls=mi, label="new", attrs={"_temperature": Num.atom("Tst"), "temperature_unit": "K"})
-                I.call_func(init, [], {"model": mobj, "branch": "ads", "temperature": Num.atom("Tst"), "temperature_unit": "K",
-                                       "material": Tok("m"), "adsorbate": Tok("a")}, None, self_obj=new)
-                return new
-            for oc, _ in rt.explore(thunk):
-                if oc.kind != "ok":
-                    raise AnalysisError(f"ModelIsotherm.__init__ with a {cname} instance: {oc.exc}")
-                ok = bool(called) and isinstance(called[-1], dict) and veq(I, called[-1].get("temperature"), Num.atom("Tst"))
-                ctx.ob(ok, Finding(f"{prop}.RT-model-state", init.where, f"ModelIsotherm.__init__|model-instance|{cname}",
-                                   f"ModelIsotherm(model=<{cname} instance>, temperature=T, ...) - the route of every importer - does not call "
-                                   f"{cname}.__init_parameters__ with the isotherm's properties: {sorted(a for c, a in derived if c == cname)} keep the "
-                                   "class default, so the re-imported model predicts other loadings / pressures than the exported one"),
-                       nontrivial_key=("model-state-import", cname))
+            from fractions import Fraction as _Fr
+            for tunit, want_T in (("K", Num.atom("Tst")), ("°C", Num.atom("Tst") + Num.const(_Fr("273.15")))):
+                def thunk(I, ci=ci, tunit=tunit):
+                    called.clear()
+                    mobj = Obj(cls=ci, label="model", attrs={"params": {}, "name": ci.name})
+                    new = Obj(cls=mi, label="new", attrs={"_temperature": Num.atom("Tst"), "temperature_unit": tunit})
+                    I.call_func(init, [], {"model": mobj, "branch": "ads", "temperature": Num.atom("Tst"), "temperature_unit": tunit,
+                                           "material": Tok("m"), "adsorbate": Tok("a")}, None, self_obj=new)
+                    return new
+                for oc, _ in rt.explore(thunk):
+                    if oc.kind != "ok":
+                        raise AnalysisError(f"ModelIsotherm.__init__ with a {cname} instance: {oc.exc}")
+                    ok = bool(called) and isinstance(called[-1], dict) and veq(I, called[-1].get("temperature"), want_T)
+                    ctx.ob(ok, Finding(f"{prop}.RT-model-state", init.where, f"ModelIsotherm.__init__|model-instance|{cname}|{tunit}",
+                                       f"ModelIsotherm(model=<{cname} instance>, temperature=T, temperature_unit={tunit!r}, ...) - the route of every importer - "
+                                       f"calls {cname}.__init_parameters__ with temperature = "
+                                       f"{I.describe(called[-1].get('temperature')) if called and isinstance(called[-1], dict) else 'nothing'}; required the "
+                                       f"isotherm's temperature in kelvin ({want_T.canon()}): {sorted(a for c, a in derived if c == cname)} otherwise keep the "
+                                       "class default / a wrong value, so the re-imported model predicts other loadings / pressures than the exported one"),
+                           nontrivial_key=("model-state-import", cname, tunit))
     finally:
         I.overrides.clear()
         I.overrides.update(saved)
